@@ -1,3 +1,4 @@
+from inspect import isawaitable
 from typing import Any, Dict, List, Union
 
 from tartiflette.coercers.outputs.common import complete_object_value
@@ -97,8 +98,16 @@ async def abstract_coercer(
         execution_context.schema.default_type_resolver,
     )
 
+    # A type resolver may be a plain function or, as documented, a coroutine
+    # function
+    runtime_type_or_name = type_resolver(
+        result, execution_context.context, info, abstract_type
+    )
+    if isawaitable(runtime_type_or_name):
+        runtime_type_or_name = await runtime_type_or_name
+
     runtime_type = ensure_valid_runtime_type(
-        type_resolver(result, execution_context.context, info, abstract_type),
+        runtime_type_or_name,
         execution_context,
         abstract_type,
         field_nodes,
